@@ -111,6 +111,40 @@ fn classify(s: &Setup, w: &[&str], want: &str, got: &str) -> &'static str {
     "source-view-mismatch"
 }
 
+static EMBFIX: assets_manager::source::RawEmbedded<'static> = assets_manager::source::embed!("fixtures/embtree");
+
+fn embfix_compare() -> Vec<String> {
+    use assets_manager::source::{Embedded, FileSystem};
+    let emb = Embedded::from(EMBFIX);
+    let fs = match FileSystem::new(concat!(env!("CARGO_MANIFEST_DIR"), "/fixtures/embtree")) { Ok(f) => f, Err(e) => return vec![format!("fixture directory cannot be opened: {e}")] };
+    let mut bad = vec![];
+    let mut todo = vec![String::new()];
+    let mut seen_files = 0usize;
+    while let Some(d) = todo.pop() {
+        let list = |x: &dyn Fn(&mut dyn FnMut(DirEntry)) -> std::io::Result<()>| -> Result<Vec<(String, Option<String>)>, String> {
+            let mut v = vec![];
+            x(&mut |e| v.push(match e { DirEntry::File(i, e) => (i.to_string(), Some(e.to_string())), DirEntry::Directory(i) => (i.to_string(), None) })).map_err(|e| e.kind().to_string())?;
+            v.sort(); Ok(v)
+        };
+        let lf = list(&|f| fs.read_dir(&d, f));
+        let le = list(&|f| emb.read_dir(&d, f));
+        if lf != le { bad.push(format!("read_dir({d:?}): FileSystem {lf:?}, Embedded {le:?}")); }
+        for (i, e) in lf.unwrap_or_default() {
+            match e {
+                None => { if !emb.exists(DirEntry::Directory(&i)) { bad.push(format!("exists(Directory({i:?})) false in Embedded")); } todo.push(i); }
+                Some(e) => {
+                    seen_files += 1;
+                    if !emb.exists(DirEntry::File(&i, &e)) { bad.push(format!("exists(File({i:?}, {e:?})) false in Embedded")); }
+                    let (a, b) = (fs.read(&i, &e).map(|c| c.as_ref().to_vec()).map_err(|x| x.kind()), emb.read(&i, &e).map(|c| c.as_ref().to_vec()).map_err(|x| x.kind()));
+                    if a != b { bad.push(format!("read({i:?}, {e:?}): FileSystem {a:?}, Embedded {b:?}")); }
+                }
+            }
+        }
+    }
+    if seen_files != 12 { bad.push(format!("fixture has 12 files, the walk saw {seen_files}")); }
+    bad
+}
+
 impl Engine for SrcEngine {
     fn name(&self) -> &'static str { "src" }
 
@@ -137,6 +171,7 @@ impl Engine for SrcEngine {
             for id in ["a", "d", "d.b", "d.e", "d.e.f", "a.b", "zz"] { l.push(format!("s.ls {}", hexs(id))); l.push(format!("s.exd {}", hexs(id))); }
             return l;
         }
+        if idx == N_SMALL * per_tree { return vec!["embfix".into()]; }
         let t = gen_tree(rng, tier);
         let kind = KINDS[idx % 4];
         let dm = *rng.pick(&[DirMembers::All, DirMembers::All, DirMembers::None, DirMembers::Some]);
@@ -204,6 +239,14 @@ impl Engine for SrcEngine {
                             }
                         }
                     }
+                }
+                "embfix" => {
+                    // the `embed!` macro itself (compile-time table over harness/fixtures/embtree) against FileSystem over the same directory
+                    let bad = embfix_compare();
+                    rec.nontrivial = true;
+                    rec.stat("embfix");
+                    for b in &bad { fresh.push(format!("source-view-mismatch embed!(fixtures/embtree) vs FileSystem over the same directory: {b}")); }
+                    rec.op("src.embfix".to_string(), if bad.is_empty() { "agree" } else { "differ" });
                 }
                 "conc" => {
                     let Some(x) = src.as_ref() else { continue };
